@@ -49,6 +49,10 @@ import (
 //	stop [race]        Group.Stop
 //	saw                Group.StopAndWait (always in its own goroutine)
 //	wait               synctest.Wait, then record the observables
+//
+// The context handed to NewGroup is context.WithCancel(Background) unless the case carries a Parent
+// (see there): a deadline / timeout context created inside the bubble, whose deadline passes in virtual
+// time — before NewGroup, during an "adv" step, or never.
 type Step struct {
 	Op   string `json:"op"`
 	K    string `json:"k,omitempty"`
@@ -58,10 +62,31 @@ type Step struct {
 	Race bool   `json:"race,omitempty"`
 }
 
+// Parent describes the context handed to NewGroup when it is not the plain cancel context. The context is
+// created as the first action inside the bubble (virtual instant 0):
+//
+//	D        the deadline, ns after instant 0: context.WithDeadline(Background, t0+D). D <= 0: the deadline has
+//	         already passed when the context is created (WithDeadline then returns an ended context)
+//	Timeout  context.WithTimeout(Background, D) instead (D > 0)
+//	Pre      the scripting goroutine sleeps Pre ns between creating the context and calling NewGroup
+//	         (Pre >= D > 0: the deadline passes, by its timer, before the group exists)
+//	Child    NewGroup gets context.WithCancel(<that context>): a child of the deadline context
+//
+// A deadline that passes ends the parent with DeadlineExceeded; the step "pcancel" calls the cancel
+// function of the context handed to NewGroup (Canceled when it comes first). Absent (nil) in every case
+// written before the field existed: those read and replay unchanged.
+type Parent struct {
+	D       int64 `json:"d"`
+	Timeout bool  `json:"timeout,omitempty"`
+	Pre     int64 `json:"pre,omitempty"`
+	Child   bool  `json:"child,omitempty"`
+}
+
 type Case struct {
-	Steps   []Step `json:"steps,omitempty"`
-	Seed    int64  `json:"seed"`
-	NoModel bool   `json:"no_model,omitempty"`
+	Steps   []Step  `json:"steps,omitempty"`
+	Seed    int64   `json:"seed"`
+	NoModel bool    `json:"no_model,omitempty"`
+	Parent  *Parent `json:"parent,omitempty"`
 	// real-threads stress case (no steps): configuration and the round in which the barrier broke
 	Stress *StressCfg `json:"stress,omitempty"`
 	Round  int        `json:"round,omitempty"`
@@ -90,11 +115,78 @@ type StressCfg struct {
 	Carousel bool `json:"carousel,omitempty"`
 	Groups   int  `json:"groups,omitempty"`
 	Gmp      int  `json:"gmp,omitempty"`
+	// ExpiredParent: the group's parent is a context.WithDeadline whose deadline had already passed when it
+	// was created (the group's context reports DeadlineExceeded from the start and for ever; on a correct
+	// Group nothing is ever started). ExpiredEvery n > 0 (carousel): every n-th fresh group is such a group.
+	ExpiredParent bool `json:"expired_parent,omitempty"`
+	ExpiredEvery  int  `json:"expired_every,omitempty"`
+}
+
+// expiredParent returns a context that ended by deadline (not by cancel) before anybody saw it.
+func expiredParent() (context.Context, context.CancelFunc) {
+	return context.WithDeadline(context.Background(), time.Now().Add(-time.Second))
 }
 
 func (c Case) String() string {
 	b, _ := json.Marshal(c)
 	return string(b)
+}
+
+// parentShape names the shape of a Parent for the distribution counters.
+func parentShape(p *Parent) string {
+	s := "deadline"
+	switch {
+	case p.D <= 0:
+		s += "-passed-at-creation"
+	case p.Pre >= p.D:
+		s += "-passes-before-newgroup"
+	case p.D >= int64(time.Hour):
+		s += "-far"
+	default:
+		s += "-in-scenario"
+	}
+	if p.Timeout && p.D > 0 {
+		s += ".timeout"
+	}
+	if p.Child {
+		s += ".child"
+	}
+	return s
+}
+
+// simplerParents lists, simplest first, the parent shapes the shrinker tries in place of p: no special
+// parent at all, the deadline already passed at creation, then p with one feature dropped.
+func simplerParents(p Parent) []*Parent {
+	var out []*Parent
+	add := func(q *Parent) {
+		if q != nil && *q == p {
+			return
+		}
+		for _, o := range out {
+			if (o == nil) != (q == nil) {
+				continue
+			}
+			if o == nil || *o == *q {
+				return
+			}
+		}
+		out = append(out, q)
+	}
+	add(nil)
+	add(&Parent{D: -1})
+	add(&Parent{D: -1, Child: p.Child})
+	q := p
+	q.Child = false
+	add(&q)
+	q = p
+	q.Timeout = false
+	add(&q)
+	if p.Pre > 0 && p.D > 0 { // the same instant of expiry relative to NewGroup, without the sleep before it
+		q = p
+		q.D, q.Pre = p.D-p.Pre, 0
+		add(&q)
+	}
+	return out
 }
 
 type fail struct {
@@ -129,6 +221,10 @@ type run struct {
 	raced    bool
 	stopped  bool
 	barriers int
+	expired  bool   // the deadline of the parent context passed during the scenario (or before NewGroup)
+	lateRegs int    // registrations made after a StopAndWait had returned
+	bookkeep string // the harness's own idea of the parent context disagrees with the context (a harness bug)
+	panicked string // a call into the library panicked (first one): "<call>: <value>"
 }
 
 // runScenario fills *r as it goes, so that what the monitors recorded survives a bubble that cannot be
@@ -138,11 +234,47 @@ func runScenario(t *testing.T, c Case, r *run) {
 		rand.Seed(c.Seed)
 		start := time.Now()
 		now := func() int64 { return int64(time.Since(start)) }
-		parent, pcancel := context.WithCancel(context.Background())
-		defer pcancel()
-		g := xsync.NewGroup(parent)
+		// --- the parent context
+		var cancels []context.CancelFunc
+		defer func() {
+			for _, cf := range cancels {
+				cf()
+			}
+		}()
+		var parent context.Context
+		var pcancel context.CancelFunc
+		hasDL := c.Parent != nil
+		var dl int64 // the deadline, ns after `start`
+		if hasDL {
+			dl = c.Parent.D
+			if c.Parent.Timeout && dl > 0 {
+				parent, pcancel = context.WithTimeout(context.Background(), time.Duration(dl))
+			} else {
+				parent, pcancel = context.WithDeadline(context.Background(), start.Add(time.Duration(dl)))
+			}
+			cancels = append(cancels, pcancel)
+			if c.Parent.Child {
+				parent, pcancel = context.WithCancel(parent)
+				cancels = append(cancels, pcancel)
+			}
+		} else {
+			parent, pcancel = context.WithCancel(context.Background())
+			cancels = append(cancels, pcancel)
+		}
 
 		var mu sync.Mutex // protects r.fail
+		var expired atomic.Bool
+		params := func(kind string) map[string]interface{} {
+			p := map[string]interface{}{"kind": kind}
+			if hasDL {
+				if expired.Load() {
+					p["parent"] = "deadline-passed"
+				} else {
+					p["parent"] = "deadline-pending"
+				}
+			}
+			return p
+		}
 		setFail := func(kind string, p map[string]interface{}, what string) {
 			mu.Lock()
 			if r.fail == nil {
@@ -155,16 +287,62 @@ func runScenario(t *testing.T, c Case, r *run) {
 		var regs []*reg
 		var sawDone []*atomic.Bool
 		var stopDone []*atomic.Bool // all Stop/StopAndWait calls, in script order
-		stopIssued := false         // Stop / StopAndWait / parent cancel issued: the group no longer "runs"
+		stopIssued := false         // Stop / StopAndWait / parent cancel / parent deadline: the group no longer "runs"
+		pcancelled := false         // "pcancel" came before the deadline: the deadline no longer matters
+		// noteExpiry: the scripting goroutine has slept past the deadline and everything the expiry does (the
+		// context package's AfterFunc goroutine cancelling the parent and, synchronously, the group's context)
+		// has happened. To the model the expiry is the environment event it already has: the parent context
+		// ends ("pcancel"); to the monitors the group no longer "runs" — exactly as for a cancelled parent.
+		noteExpiry := func() {
+			expired.Store(true)
+			r.expired = true
+			stopIssued = true
+			r.lines = append(r.lines, "pcancel")
+			if parent.Err() == nil && r.bookkeep == "" {
+				r.bookkeep = fmt.Sprintf("at %dns the harness takes the deadline (%dns) for passed, but parent.Err() is nil", now(), dl)
+			}
+		}
+		if hasDL {
+			if c.Parent.Pre > 0 {
+				time.Sleep(time.Duration(c.Parent.Pre))
+				synctest.Wait() // the deadline's AfterFunc goroutine, should it be due at this very instant
+			}
+			if now() >= dl {
+				noteExpiry()
+			} else if parent.Err() != nil {
+				r.bookkeep = fmt.Sprintf("at %dns, before the deadline (%dns), parent.Err() is %v", now(), dl, parent.Err())
+			}
+		}
+		// every call into the library goes through lib: a panic (say the WaitGroup's "reused before previous
+		// Wait has returned") inside a goroutine of the bubble would otherwise kill the test binary and with it
+		// every verdict of the run. After a panic the script is abandoned (a panic inside spawn leaves the
+		// read lock held; further calls could block for good).
+		var panicked atomic.Bool
+		lib := func(call string, f func()) bool {
+			if p, v := vlib.Try(f); p {
+				mu.Lock()
+				if r.panicked == "" {
+					r.panicked = fmt.Sprintf("%s: %v", call, v)
+				}
+				mu.Unlock()
+				panicked.Store(true)
+				return false
+			}
+			return true
+		}
+		var g *xsync.Group
+		if !lib("NewGroup", func() { g = xsync.NewGroup(parent) }) {
+			return
+		}
 
 		mkF := func(rg *reg, idx int) func(ctx context.Context) {
 			return func(ctx context.Context) {
 				if barrier.Load() {
-					setFail("barrier-run-started-after-stopandwait", map[string]interface{}{"kind": rg.kind},
+					setFail("barrier-run-started-after-stopandwait", params(rg.kind),
 						fmt.Sprintf("a run of the %s function #%d began after StopAndWait had returned", rg.kind, idx))
 				}
 				if n := rg.active.Add(1); n > 1 {
-					setFail("runs-overlap", map[string]interface{}{"kind": rg.kind},
+					setFail("runs-overlap", params(rg.kind),
 						fmt.Sprintf("%d runs of the %s function #%d are in progress at once", n, rg.kind, idx))
 				}
 				rg.begun.Add(1)
@@ -199,7 +377,7 @@ func runScenario(t *testing.T, c Case, r *run) {
 				// trigger not lost: a call not yet followed by the beginning of a run, and nothing running
 				if (rg.kind == "trig" || rg.kind == "pot") && rg.lastCallSeq > 0 &&
 					rg.lastBegin.Load() < rg.lastCallSeq && rg.active.Load() == 0 {
-					setFail("trigger-lost", map[string]interface{}{"kind": rg.kind},
+					setFail("trigger-lost", params(rg.kind),
 						fmt.Sprintf("the trigger function of %s #%d was called, the group is running, everything has settled, and no run of f began after the call", rg.kind, i))
 				}
 				// periodic keeps running: idle for a whole interval + jitter
@@ -208,7 +386,7 @@ func runScenario(t *testing.T, c Case, r *run) {
 						if rg.idleSince < 0 || rg.begun.Load() != rg.begunAtIdle {
 							rg.idleSince, rg.begunAtIdle = tnow, rg.begun.Load()
 						} else if tnow-rg.idleSince >= rg.interval+rg.jitter {
-							setFail("periodic-stalled", map[string]interface{}{"kind": rg.kind},
+							setFail("periodic-stalled", params(rg.kind),
 								fmt.Sprintf("%s #%d (interval %dns, jitter %dns) has been idle from %dns to %dns without a run, the group is running", rg.kind, i, rg.interval, rg.jitter, rg.idleSince, tnow))
 						}
 					} else {
@@ -220,24 +398,33 @@ func runScenario(t *testing.T, c Case, r *run) {
 
 		settled := true
 		for _, st := range c.Steps {
+			if panicked.Load() {
+				break
+			}
 			switch st.Op {
 			case "reg":
 				rg := &reg{kind: st.K, interval: st.A, jitter: st.B, gate: make(chan struct{}), idleSince: -1, whileRunning: !stopIssued}
 				idx := len(regs)
 				regs = append(regs, rg)
 				f := mkF(rg, idx)
+				if barrier.Load() {
+					r.lateRegs++
+				}
 				call := func() {
+					ok := true
 					switch st.K {
 					case "do":
-						g.Do(f)
+						ok = lib("Do", func() { g.Do(f) })
 					case "trig":
-						rg.trigger = g.Trigger(f)
+						ok = lib("Trigger", func() { rg.trigger = g.Trigger(f) })
 					case "per":
-						g.Periodic(time.Duration(st.A), time.Duration(st.B), f)
+						ok = lib("Periodic", func() { g.Periodic(time.Duration(st.A), time.Duration(st.B), f) })
 					case "pot":
-						rg.trigger = g.PeriodicOrTrigger(time.Duration(st.A), time.Duration(st.B), f)
+						ok = lib("PeriodicOrTrigger", func() { rg.trigger = g.PeriodicOrTrigger(time.Duration(st.A), time.Duration(st.B), f) })
 					}
-					rg.registered.Store(true)
+					if ok {
+						rg.registered.Store(true)
+					}
 				}
 				r.lines = append(r.lines, fmt.Sprintf("reg %s %d %d", st.K, st.A, st.B))
 				if st.Race {
@@ -253,7 +440,7 @@ func runScenario(t *testing.T, c Case, r *run) {
 				}
 				rg := regs[st.I]
 				rg.lastCallSeq = seq.Add(1)
-				rg.trigger()
+				lib("trigger function", rg.trigger)
 				r.lines = append(r.lines, fmt.Sprintf("trig %d", st.I))
 			case "fret":
 				if st.I >= len(regs) {
@@ -266,12 +453,39 @@ func runScenario(t *testing.T, c Case, r *run) {
 				}
 			case "adv":
 				if st.A > 0 {
-					time.Sleep(time.Duration(st.A))
-					r.lines = append(r.lines, fmt.Sprintf("adv %d", st.A))
+					t0 := now()
+					if hasDL && !pcancelled && !expired.Load() && dl <= t0+st.A {
+						// The deadline passes during this sleep. Virtual time does not move on from the deadline's
+						// instant before everything has settled again, so when the deadline lies strictly inside the
+						// sleep the expiry is complete when the sleep ends. When both fall on the same instant the
+						// scripting goroutine may wake before the context package's AfterFunc goroutine has run:
+						// wait for it, so that "the parent has ended" is true when the next action is issued.
+						d1 := dl - t0
+						if d1 < 0 {
+							d1 = 0
+						}
+						time.Sleep(time.Duration(st.A))
+						if d1 == st.A {
+							synctest.Wait()
+						}
+						if d1 > 0 {
+							r.lines = append(r.lines, fmt.Sprintf("adv %d", d1))
+						}
+						noteExpiry()
+						if st.A-d1 > 0 {
+							r.lines = append(r.lines, fmt.Sprintf("adv %d", st.A-d1))
+						}
+					} else {
+						time.Sleep(time.Duration(st.A))
+						r.lines = append(r.lines, fmt.Sprintf("adv %d", st.A))
+					}
 					settled = false
 				}
 			case "pcancel":
 				stopIssued = true
+				if !expired.Load() {
+					pcancelled = true
+				}
 				pcancel()
 				r.lines = append(r.lines, "pcancel")
 			case "stop":
@@ -282,9 +496,12 @@ func runScenario(t *testing.T, c Case, r *run) {
 				r.lines = append(r.lines, "stop")
 				if st.Race {
 					r.raced = true
-					go func() { g.Stop(); d.Store(true) }()
-				} else {
-					g.Stop()
+					go func() {
+						if lib("Stop", g.Stop) {
+							d.Store(true)
+						}
+					}()
+				} else if lib("Stop", g.Stop) {
 					d.Store(true)
 				}
 			case "saw":
@@ -298,12 +515,14 @@ func runScenario(t *testing.T, c Case, r *run) {
 				sawDone = append(sawDone, d)
 				r.lines = append(r.lines, "saw")
 				go func() {
-					g.StopAndWait()
+					if !lib("StopAndWait", g.StopAndWait) {
+						return // it did not return: the clause is about calls that do
+					}
 					// "after StopAndWait returns none of the functions is running"
 					barrier.Store(true)
 					for i, rg := range regs {
 						if n := rg.active.Load(); n > 0 {
-							setFail("barrier-function-still-running", map[string]interface{}{"kind": rg.kind},
+							setFail("barrier-function-still-running", params(rg.kind),
 								fmt.Sprintf("StopAndWait returned while %d run(s) of the %s function #%d were in progress", n, rg.kind, i))
 						}
 					}
@@ -318,9 +537,20 @@ func runScenario(t *testing.T, c Case, r *run) {
 		r.lines = append(r.lines, "#teardown")
 		pcancel()
 		fin := &atomic.Bool{}
-		go func() { g.StopAndWait(); barrier.Store(true); fin.Store(true) }()
+		go func() {
+			if !panicked.Load() && lib("StopAndWait", g.StopAndWait) {
+				barrier.Store(true)
+			}
+			fin.Store(true)
+		}()
 		for k := 0; k < 10000; k++ {
 			synctest.Wait()
+			if panicked.Load() && k >= 50 {
+				// the script was abandoned: the parent is cancelled (loops leave through Done), the gates have been
+				// released; whatever is still blocked (a call waiting for a lock that a panicking call left held)
+				// shows up as a bubble that cannot be left = broken correspondence
+				break
+			}
 			all := fin.Load()
 			for _, d := range sawDone {
 				all = all && d.Load()
@@ -484,6 +714,10 @@ func stressRound(cfg StressCfg) *fail {
 	// the parent context is cancelled when the round is over, so that nothing of an abandoned group (one
 	// whose lock is wedged after a recovered panic) keeps spinning
 	parent, cancelParent := context.WithCancel(context.Background())
+	if cfg.ExpiredParent {
+		cancelParent()
+		parent, cancelParent = expiredParent()
+	}
 	defer cancelParent()
 	g := xsync.NewGroup(parent)
 	var returned atomic.Bool
@@ -596,6 +830,9 @@ func stressRound(cfg StressCfg) *fail {
 		runtime.Gosched()
 	}
 	params := map[string]interface{}{"kind": cfg.Kind, "phase": "real-threads-stress"}
+	if cfg.ExpiredParent {
+		params["parent"] = "deadline-passed"
+	}
 	if n := begunAfter.Load(); n > 0 {
 		params["evidence"] = "f-began-after-return"
 		return &fail{"barrier-run-started-after-stopandwait", params,
@@ -645,6 +882,9 @@ func stressConfigs() []StressCfg {
 		{Doers: 4, Kind: "pot", StopSpin: 1},
 		{Doers: 5, Kind: "do", Pre: 1, PlainStop: true},
 		{Doers: 2, Kind: "trig", Pre: 2, SpinF: 3, StopSpin: 3},
+		// the parent ended by deadline before NewGroup (fix6): nothing may ever start; the flags stay
+		// true-positive-only (a correct Group never calls f here at all)
+		{Doers: 3, Kind: "mix", Pre: 1, ExpiredParent: true},
 	}
 }
 
@@ -775,19 +1015,65 @@ func (x *runner) do(c Case, tag string) {
 		x.res.Count("scenarios-with-races")
 	}
 	x.res.Case(strings.Join(rr.lines, ";"), rr.runs >= 2 && rr.stopped, map[string]interface{}{"case": c, "trace": rr.lines})
+	if rr.panicked != "" {
+		// Not a clause of the text (which speaks about calls that return) but no behaviour of the model either
+		// (the driver keeps no state with `panicked`): a broken correspondence, reported next to whatever the
+		// monitors recorded in the same scenario.
+		x.res.Count("library-call-panicked")
+		x.res.Fail(vlib.Failure{Source: "correspondence", Kind: "library-call-panicked", Params: map[string]interface{}{},
+			What: "a call into xsync.Group panicked inside the scenario: " + rr.panicked, Case: c})
+	}
+	if rr.bookkeep != "" {
+		// not a statement about the library: the harness's bookkeeping of the parent's deadline is off
+		x.res.Count("harness-deadline-bookkeeping")
+		x.res.Fail(vlib.Failure{Source: "correspondence", Kind: "harness-deadline-bookkeeping", Params: map[string]interface{}{},
+			What: "harness bug, not a finding about the library: " + rr.bookkeep, Case: c})
+	}
+	if c.Parent != nil {
+		x.res.Count("parent." + parentShape(c.Parent))
+		if rr.expired {
+			x.res.Count("parent-deadline-passed")
+			if rr.barriers > 0 {
+				x.res.Count("parent-deadline-passed+stopandwait-returned")
+				if rr.lateRegs > 0 {
+					x.res.Count("parent-deadline-passed+registration-after-stopandwait")
+				}
+			}
+		}
+	}
 	if f := rr.fail; f != nil {
 		x.res.Count("monitor-failure." + f.kind)
 		small := c
-		small.Steps = vlib.Shrink(c.Steps, func(s []Step) bool {
-			cc := c
-			cc.Steps = s
+		stillFails := func(cc Case) bool {
 			for i := 0; i < 3; i++ {
 				if r2 := x.eval(cc); r2.fail != nil && r2.fail.kind == f.kind {
 					return true
 				}
 			}
 			return false
-		})
+		}
+		shrinkSteps := func() {
+			base := small
+			small.Steps = vlib.Shrink(base.Steps, func(s []Step) bool {
+				cc := base
+				cc.Steps = s
+				return stillFails(cc)
+			})
+		}
+		shrinkSteps()
+		// the parent context: first try without it (the deadline is part of the case only when the failure
+		// needs it), then towards "the deadline had already passed when the context was created"
+		if small.Parent != nil {
+			for _, cand := range simplerParents(*small.Parent) {
+				cc := small
+				cc.Parent = cand
+				if stillFails(cc) {
+					small = cc
+					shrinkSteps() // e.g. the "adv" steps that let the deadline pass are no longer needed
+					break
+				}
+			}
+		}
 		f2 := f
 		for i := 0; i < 5; i++ {
 			if r2 := x.eval(small); r2.fail != nil && r2.fail.kind == f.kind {
@@ -797,7 +1083,7 @@ func (x *runner) do(c Case, tag string) {
 		}
 		x.res.Fail(vlib.Failure{Source: "monitor", Kind: f2.kind, Params: f2.params, What: f2.what, Case: small})
 	}
-	if !c.NoModel && x.model != nil && rr.deadlock == "" {
+	if !c.NoModel && x.model != nil && rr.deadlock == "" && rr.panicked == "" {
 		x.mCases = append(x.mCases, c)
 		x.mLines = append(x.mLines, modelLines(rr.lines))
 		if len(x.mCases) >= 50 {
@@ -957,17 +1243,39 @@ func TestVerif(t *testing.T) {
 			x.do(c, "corpus")
 		}
 	}
+	// directed pass (deterministic, every run): parent contexts that end by deadline x order of deadline /
+	// Stop / StopAndWait / registration x registration kind x trigger pending (deadline_test.go)
+	for _, d := range directedDeadline() {
+		for i := 0; i < d.reps; i++ {
+			x.do(d.c, "directed-deadline")
+		}
+	}
 	deadline := env.Deadline()
 	limit := 1500
 	if env.Thorough() || env.Deep {
 		limit = 40000
 	}
+	// the parent shapes are drawn from a stream of their own, so that the scenarios (steps, seeds) of a given
+	// VERIF_SEED are the ones they were before parents existed; one scenario in four gets a deadline parent
+	prnd := vlib.NewRand(env.Seed ^ 0x9e3779b97f4a7c15)
 	for n := 0; n < limit && time.Now().Before(deadline); n++ {
+		var c Case
+		tag := "random-ns"
 		if rnd.Chance(1, 6) {
-			x.do(Case{Steps: genScenario(rnd.Fork(), true), Seed: seed(), NoModel: true}, "random-ms")
+			c = Case{Steps: genScenario(rnd.Fork(), true), Seed: seed(), NoModel: true}
+			tag = "random-ms"
 		} else {
-			x.do(Case{Steps: genScenario(rnd.Fork(), false), Seed: seed()}, "random-ns")
+			c = Case{Steps: genScenario(rnd.Fork(), false), Seed: seed()}
 		}
+		if prnd.Chance(1, 4) {
+			scale := int64(1)
+			if c.NoModel {
+				scale = int64(time.Millisecond)
+			}
+			c.Parent = genParent(prnd, scale)
+			tag += "-deadline-parent"
+		}
+		x.do(c, tag)
 	}
 }
 
